@@ -31,6 +31,15 @@ def write_module(root, k, edges, extra_methods=2, cross_params=False, chains=Fal
               f"  class In{i} {{", "  PUBLISHED:", f"    In{i}();", "    int inner_val() const;", "  };",
               f"  int rb_id() const;", "};"] if cross_params else []
         ge = ["BEGIN_PUBLISH", f"enum Color{i} {{ red{i}, green{i} = 4 }};", "END_PUBLISH"] if cross_params else []
+        # a keyed map property and a sequence property: every element accessor index must survive the merge remap
+        mpl = [f"  bool has_ent{i}(int key) const;", f"  int get_ent{i}(int key) const;", f"  void set_ent{i}(int key, int v);",
+               f"  void clear_ent{i}(int key);", f"  int get_num_ent{i}_keys() const;", f"  int get_ent{i}_key(int n) const;",
+               f"  MAKE_MAP_PROPERTY(ents{i}, has_ent{i}, get_ent{i}, set_ent{i}, clear_ent{i});",
+               f"  MAKE_MAP_KEYS_SEQ(ents{i}, get_num_ent{i}_keys, get_ent{i}_key);",
+               f"  int get_num_it{i}() const;", f"  int get_it{i}(int n) const;", f"  void set_it{i}(int n, int v);",
+               f"  void remove_it{i}(int n);", f"  void insert_it{i}(int n, int v);",
+               f"  MAKE_SEQ_PROPERTY(its{i}, get_num_it{i}, get_it{i}, set_it{i}, remove_it{i}, insert_it{i});",
+               f"  MAKE_SEQ(get_its{i}, get_num_it{i}, get_it{i});"] if cross_params else []
         if i in enum_only:
             # a library that contributes types but no functions at all
             h = [f"#ifndef {n.upper()}_ROOT_H", f"#define {n.upper()}_ROOT_H", '#include "vfpub.h"', "BEGIN_PUBLISH",
@@ -41,12 +50,17 @@ def write_module(root, k, edges, extra_methods=2, cross_params=False, chains=Fal
             continue
         h = [f"#ifndef {n.upper()}_ROOT_H", f"#define {n.upper()}_ROOT_H", '#include "vfpub.h"'] + ge + [
              f"class R{i} {{", "PUBLISHED:", f"  R{i}();", f"  virtual ~R{i}();", f"  int base_id_{i}() const;",
-             f"  virtual int vid() const;", "};"] + rb + ["#endif"]
+             f"  virtual int vid() const;"] + mpl + ["};"] + rb + ["#endif"]
         open(os.path.join(d, f"{n}_root.h"), "w").write("\n".join(h) + "\n")
         headers.append(f"{n}_root.h")
         cx += [f'#include "{n}_root.h"', f"R{i}::R{i}() {{}}", f"R{i}::~R{i}() {{}}",
                f"int R{i}::base_id_{i}() const {{ return {100 + i}; }}", f"int R{i}::vid() const {{ return {100 + i}; }}"]
         if cross_params:
+            cx += [f"bool R{i}::has_ent{i}(int key) const {{ return key == 1; }}", f"int R{i}::get_ent{i}(int key) const {{ return key; }}",
+                   f"void R{i}::set_ent{i}(int, int) {{}}", f"void R{i}::clear_ent{i}(int) {{}}",
+                   f"int R{i}::get_num_ent{i}_keys() const {{ return 1; }}", f"int R{i}::get_ent{i}_key(int) const {{ return 1; }}",
+                   f"int R{i}::get_num_it{i}() const {{ return 2; }}", f"int R{i}::get_it{i}(int n) const {{ return n; }}",
+                   f"void R{i}::set_it{i}(int, int) {{}}", f"void R{i}::remove_it{i}(int) {{}}", f"void R{i}::insert_it{i}(int, int) {{}}"]
             cx += [f"RB{i}::RB{i}() {{}}", f"RB{i}::In{i}::In{i}() {{}}", f"int RB{i}::In{i}::inner_val() const {{ return 7; }}",
                    f"int RB{i}::rb_id() const {{ return {200 + i}; }}"]
         classes = [f"R{i}"]
